@@ -702,6 +702,24 @@ class PropertyRun:
         self.log("  [self-test] lean lean/Lemmas.lean: %s (%.0fs)" % (res[:80], time.time() - t0))
         return self.lean
 
+    def library_conformance(self, rounds=10):
+        """tools/conformance.py: the library theory (vf/lib.py) evaluated concretely against the real torch / numpy,
+        and the assumed relations of the axiomatised operations restated over the real library's output"""
+        import subprocess
+        t0 = time.time()
+        try:
+            p = subprocess.run([sys.executable, os.path.join(VERIF, 'tools', 'conformance.py'), str(rounds)], cwd=VERIF,
+                               capture_output=True, text=True, timeout=900,
+                               env=dict(os.environ, PYTHONPATH=VERIF, PYTHONHASHSEED='0', VERIF_SEED=str(self.seed)))
+            lines = [l for l in p.stdout.splitlines() if l.startswith('conformance:') or 'DISAGREE' in l]
+            res = {'result': 'agree' if p.returncode == 0 else 'DISAGREEMENT (an axiom of the engine misstates the library; verdicts depending on it are unreliable)',
+                   'report': lines[:12], 'seconds': round(time.time() - t0, 1)}
+        except Exception as e:
+            res = {'result': 'not run: %r' % (e,)}
+        self.conformance = res
+        self.log("  [self-test] library theory vs real torch/numpy: %s (%s)" % (res['result'][:60], (res.get('report') or [''])[0][:160]))
+        return res
+
     def run_bounded_worker(self, modname, budget, replay_only=False):
         """the driver runs in a child process: a crash (signal) or a call into the real code that never
         returns is observed by the parent instead of taking the checker down or hanging it"""
@@ -849,6 +867,8 @@ class PropertyRun:
             cov['lean_lemma_file'] = self.lean
         if getattr(self, 'crosscheck', None) is not None:
             cov['second_solver_crosscheck'] = self.crosscheck
+        if getattr(self, 'conformance', None) is not None:
+            cov['library_conformance'] = self.conformance
         if self.brep is not None:
             b = self.brep.summary(self.bscope)
             cov['bounded'] = b
@@ -918,6 +938,10 @@ def run_property(pid, tier, seed):
                 pr.log("  [self-test] cvc5 cross-check failed to run: " + traceback.format_exc()[-300:])
             try:
                 pr.lean_recheck()
+            except Exception:
+                pass
+            try:
+                pr.library_conformance()
             except Exception:
                 pass
     pr.bounded()
